@@ -97,7 +97,7 @@ def _subs(tier):
 
 def jobs(tier):
     return pack(_subs(tier), 48 if tier == 'quick' else 64, lambda s: 1.0, 'c12-', weights='distinct',
-                timeout=170 if tier == 'quick' else 300)
+                timeout=240 if tier == 'quick' else 300)
 
 
 def bounds_text(tier):
